@@ -22,10 +22,7 @@ EXPECTED = [
 
 
 def build(S, tier, seed):
-    S.install(loops={purge.PARSE_PATH_LOOP: purge.parse_path_loop_annot()})
-    S.verify(purge.FilterMatches())
-    S.verify(purge.ParsePath())
-    S.verify(purge.PathOfBackupCopy())
+    purge.leaf_vcs(S)
     purge.rm_vc(S)
 
 
